@@ -150,6 +150,29 @@ def c07():
                      "extra_password_regexes")
 
 
+def c07_multi():
+    """several secrets of the same line form on one line (single-line JSON / XML, ';'-joined commands): none survives
+    and the output does not depend on their content"""
+    templates = ['{{"primary": "password {a}", "backup": "password {b}"}}', "snmp-community {a} ; snmp-community {b}",
+                 "<pre_shared_key>{ka}</pre_shared_key><x/><pre_shared_key>{kb}</pre_shared_key>",
+                 "key {a} ; key {b}", "enable secret 5 {m1} ; enable secret 5 {m2}"]
+    for t in templates:
+        outs = []
+        for variant in (1, 2):
+            vals = dict(a=secret("text", variant), b=secret("text", variant + 3), ka=("k%d" % variant) * 16,
+                        kb=("q%d" % variant) * 16, m1=secret("md5", variant), m2=secret("md5", variant + 3))
+            line = t.format(**vals)
+            note(("multi", t, variant))
+            out = run_io(line + "\n", anon_pwd=True, anon_ip=False, salt="s")
+            for k, v in vals.items():
+                if "{" + k + "}" in t and v in out:
+                    fail("C07.survives", {"line": line, "output": out}, "a secret is still in the output", "replace_matching_item")
+            outs.append(out)
+        if outs[0] != outs[1] and not (FAILS and FAILS[-1]["tag"] == "C07.survives"):
+            fail("C07.depends", {"template": t, "out1": outs[0], "out2": outs[1]}, "output depends on the secrets' content",
+                 "replace_matching_item")
+
+
 def c08():
     classes = list(SECRET_CLASSES)
     quotes = [("", ""), ('"', '"'), ("'", "'"), ('"', '";'), ("{", "}"), ("[", "],")]
@@ -211,6 +234,8 @@ def c09():
                 for i in range(1, 3 if QUICK else 9):
                     for (h, t) in (encl if cls in ("text", "numeric", "hex") else encl[:2]):
                         s = secret(cls, i)
+                        if cls == "type7" and (i + len(form)) % 2 and any(c in "ABCDEF" for c in s):
+                            s = s.lower()                    # type 7 is hexadecimal in either letter case
                         if cls == "md5":
                             salts = ["abcdefgh"[: (i % 8) + 1], "1aZ9", "11abc", "1", "$"[:0] + "0x1", "12345678"]
                             s = md5c("x%d" % i, salts[(i + len(h) + len(form)) % len(salts)])
@@ -325,6 +350,24 @@ def c08_multi():
         if len(set(flat)) != len(flat):
             fail("C08.collision-across-files", {"how": how, "files": files, "outputs": outs},
                  "different secrets share a replacement in one run", "FileAnonymizer.pwd_lookup")
+
+    # several secrets of one line form on the same line
+    a, b = secret("text", 1), secret("text", 2)
+    text = ['{"primary": "password %s", "backup": "password %s"}' % (a, b), "key %s ; key %s" % (a, b),
+            "password %s" % b, "password %s" % a, "key %s ; key %s" % (b, b)]
+    note(("multi", "same-line"))
+    out = run_io("\n".join(text) + "\n", anon_pwd=True, anon_ip=False, salt="s8").splitlines()
+    if len(out) == len(text):
+        ra, rb = out[3].split()[-1], out[2].split()[-1]
+        exp = [text[0].replace(a, ra).replace(b, rb), text[1].replace(a, ra).replace(b, rb), "password " + rb,
+               "password " + ra, text[4].replace(b, rb)]
+        if ra == rb:
+            fail("C08.collision", {"lines": text, "outputs": out}, "different secrets share a replacement", "replace_matching_item")
+        elif out != exp:
+            fail("C08.inconsistent", {"lines": text, "outputs": out, "expected": exp},
+                 "secrets sharing a line are not each replaced by their own replacement", "replace_matching_item")
+    else:
+        fail("C08.inconsistent", {"lines": text, "outputs": out}, "line count changed", "replace_matching_item")
 
     note(("multi", "streams"))
     fa = FileAnonymizer(anon_pwd=True, anon_ip=False, salt="s8")
@@ -659,6 +702,32 @@ def c16():
                         shutil.rmtree(tmp2, ignore_errors=True)
             finally:
                 shutil.rmtree(tmp, ignore_errors=True)
+    # spellings of the input/output paths: relative, trailing separator, './', a name that recurs below itself
+    tmp = tempfile.mkdtemp(prefix="vc16d_")
+    cwd = os.getcwd()
+    try:
+        spec = {"r1.cfg": (good % (1, 1, 1)).encode(), "configs/r2.cfg": (good % (2, 2, 2)).encode(),
+                "site2/configs/r3.cfg": (good % (3, 3, 3)).encode(), "site1/r4.cfg": (good % (4, 4, 4)).encode()}
+        tree(os.path.join(tmp, "configs"), spec)
+        os.chdir(tmp)
+        for k, (i_, o_) in enumerate([("configs", "anon"), ("configs/", "anon1"), ("./configs", "./anon2"),
+                                      ("configs", "anon3/"), (os.path.join(tmp, "configs"), "anon4")]):
+            note(("spelling", i_, o_))
+            logging.disable(logging.CRITICAL)
+            try:
+                anonymize_files(i_, o_, **kw)
+            finally:
+                logging.disable(logging.NOTSET)
+            got = listing(os.path.join(tmp, o_))
+            if set(got) != set(spec):
+                fail("C16.relative_path", {"input": i_, "output": o_, "expected": sorted(spec), "got": sorted(got)},
+                     "output files are not at the inputs' relative paths", "file_list")
+        stray = [p_ for p_ in os.listdir(tmp) if p_ not in ("configs", "anon", "anon1", "anon2", "anon3", "anon4")]
+        if stray:
+            fail("C16.extra", {"extra": sorted(stray)}, "something was written outside the output directory", "frame")
+    finally:
+        os.chdir(cwd)
+        shutil.rmtree(tmp, ignore_errors=True)
     # single file API and in-place refusal
     tmp = tempfile.mkdtemp(prefix="vc16c_")
     try:
@@ -784,18 +853,18 @@ def c19():
         fail("C19.dump", {"error": e1}, "map dump with IP anonymization failed", "main")
 
 
-CHECKS = {"C07": [c07], "C08": [c08, c08_multi], "C09": [c09], "C10": [c10, c10_with_secrets], "C12": [c12, c12_verbatim], "C13": [c13], "C14": [c14], "C15": [c15],
+CHECKS = {"C07": [c07, c07_multi], "C08": [c08, c08_multi], "C09": [c09], "C10": [c10, c10_with_secrets], "C12": [c12, c12_verbatim], "C13": [c13], "C14": [c14], "C15": [c15],
           "C16": [c16], "C19": [c19]}
 BOUNDS = {
-    "C07": "25 line forms x 7 secret format classes x 2 secret variants (same equality pattern), output and INFO+ log compared; 8 standalone hash tokens",
-    "C08": "60/1500 random runs: 2-5 secrets of mixed classes over 3-8 lines, 6 enclosing-text variants, $9$ re-encodings under random salts; one run over two streams and over a two-file directory with shared secrets in different positions",
+    "C07": "25 line forms x 7 secret format classes x 2 secret variants (same equality pattern), output and INFO+ log compared; 8 standalone hash tokens; 5 one-line templates carrying two secrets of the same form",
+    "C08": "60/1500 random runs: 2-5 secrets of mixed classes over 3-8 lines, 6 enclosing-text variants, $9$ re-encodings under random salts; one run over two streams and over a two-file directory with shared secrets in different positions; 5 lines with two secrets of one form on the same line",
     "C09": "4 netconan salts x 5 line forms x 7 classes x 2/8 secrets x 8 enclosing-text variants; type 7 decoded, $1$ salt length, $6$ shape, $9$ decrypted",
     "C10": "5 word lists (prefixes/substrings, mixed case, a regex metacharacter) x 3 reserved sets x 2/3 hash seeds (subprocesses) x 11 lines; 8 lines mixing words with secrets and scrubbed forms, secrets on and off",
     "C12": "15 feature subsets x 5 texts (blank lines, tabs, CRLF, no final newline, empty); per-line independence for 17 lines; 11 tokens with backslash / template characters x 5 secret line forms carried over verbatim",
     "C13": "4 option sets x 2/4 hash seeds in fresh processes + in-process repeat after an unrelated anonymizer + caller's lists; no-salt path",
     "C14": "7 salts (empty, non-alphabet first character, non-ASCII) x 5 feature sets x ~75/650 hostile lines (backslashes, metacharacters, malformed hashes, 3000 quotes)",
     "C15": "3 option sets x 35 feature/undo combinations: combined run vs chained single-feature runs on a 30-line corpus incl. IPv6 with dotted tail",
-    "C16": "4 trees (nesting, spaces/Unicode, dot files, undecodable bytes early/late) x pre-existing output incl. a directory in the way; single-file API; in-place refusal",
+    "C16": "4 trees (nesting, spaces/Unicode, dot files, undecodable bytes early/late) x pre-existing output incl. a directory in the way; single-file API; in-place refusal; 5 spellings of the input/output paths (relative, trailing separator, ./, recurring directory name, absolute)",
     "C19": "13 rejected combinations (command line / config file / both), no-feature run, 4 command-line/config equivalences + precedence, defaults, private-address equivalence",
 }
 
